@@ -222,9 +222,31 @@ pub fn json_in_shape(v: &serde_json::Value, s: &Shape, resolve: &dyn Fn(&str) ->
 // TypeScript type -> Shape
 // ---------------------------------------------------------------------------------------------
 
+/// The property name a numeric-literal key denotes in JavaScript: `String(Number(literal))`
+/// (`0x10` names "16", `1e3` names "1000", `1_000` names "1000").
+pub fn js_number_key(lit: &str) -> String {
+    let t: String = lit.chars().filter(|c| *c != '_').collect();
+    let lower = t.to_ascii_lowercase();
+    let v: Option<f64> = if let Some(h) = lower.strip_prefix("0x") {
+        u128::from_str_radix(h, 16).ok().map(|x| x as f64)
+    } else if let Some(o) = lower.strip_prefix("0o") {
+        u128::from_str_radix(o, 8).ok().map(|x| x as f64)
+    } else if let Some(b) = lower.strip_prefix("0b") {
+        u128::from_str_radix(b, 2).ok().map(|x| x as f64)
+    } else {
+        lower.parse::<f64>().ok()
+    };
+    match v {
+        Some(x) if x.is_finite() && x.fract() == 0.0 && x.abs() < 1e21 => format!("{}", x as i128),
+        Some(x) => format!("{}", x),
+        None => lit.to_string(),
+    }
+}
+
 pub fn prop_key_string(k: &PropKey) -> String {
     match k {
-        PropKey::Ident(s) | PropKey::Str(s) | PropKey::Num(s) => s.clone(),
+        PropKey::Ident(s) | PropKey::Str(s) => s.clone(),
+        PropKey::Num(s) => js_number_key(s),
         PropKey::Computed(_) => "<computed>".into(),
     }
 }
